@@ -66,7 +66,7 @@ pub fn salted_hash<P: Payload>(i: &InitState<P>) -> Vec<u8> {
 /// Returns (message bytes, signed length, signature, parse result as text).
 pub fn build_and_parse(
     body: &[u8], seed: &[u8], trusted: &[Ed25519PublicKey], sig_ok: bool, hash_ok: bool, tail: &[u8], truncate: Option<usize>,
-    sig_len: Option<(u8, usize)>, key_salt: Option<[u8; 4]>,
+    sig_len: Option<(u8, usize)>, key_salt: Option<[u8; 4]>, forged_sig: bool,
 ) -> (Vec<u8>, usize, Vec<u8>, String) {
     let kp = Ed25519KeyPair::from_seed_unchecked(seed).unwrap();
     let mut pk = [0u8; ED25519_PUBLIC_KEY_LEN];
@@ -85,6 +85,12 @@ pub fn build_and_parse(
     let genuine = sigb.clone();
     if !sig_ok {
         sigb[5] ^= 0x10;
+    }
+    if forged_sig {
+        // what a party WITHOUT any key can write into the signature field: R = the identity point, S = 0.  Under a public key of
+        // small order (the all-zero key decodes to one) such a "signature" verifies for about one message in four
+        sigb = vec![0u8; 64];
+        sigb[0] = 1;
     }
     match sig_len {
         None => {
